@@ -93,6 +93,7 @@ func runC17(c *Ctx) {
 	enabled := true
 	writes, newlines, toggles := 0, 0, 0
 	var ed []string
+	scratch := make([]byte, 256)
 	r.Go("producer", func() {
 		for i, ev := range events {
 			switch ev.kind {
@@ -109,7 +110,10 @@ func runC17(c *Ctx) {
 						}
 					}
 				}
-				arg := append([]byte(nil), ev.chunk...)
+				// like io.Copy, the producer hands over the same scratch buffer
+				// every time and overwrites it as soon as Write has returned
+				arg := scratch[:len(ev.chunk)]
+				copy(arg, ev.chunk)
 				nn, err := wr.Write(arg)
 				if nn != len(ev.chunk) || err != nil {
 					c.Fail("C17: Write did not report all bytes as consumed", "event %d: Write(%d bytes) returned (%d, %v)", i, len(ev.chunk), nn, err)
@@ -118,6 +122,9 @@ func runC17(c *Ctx) {
 				if string(arg) != string(ev.chunk) {
 					c.Fail("C17: Write modified the caller's bytes", "event %d", i)
 					return
+				}
+				for j := range scratch {
+					scratch[j] = 0xEE
 				}
 				ed = append(ed, fmt.Sprintf("W%q", ev.chunk))
 			case 'S':
